@@ -13,7 +13,8 @@ TAU = bytes.maketrans(b"\n\0", b"\0\n")
 def _run_once(chk):
     chk.rule = ("modes -f (general path with -g -p -t -s -j -r, fast path, dispatch), -c, -l (both algorithms, -m, --no-join), -M (random "
                 "segmentation); inputs over {delimiter bytes, x, y, LF, NUL, CR, 0xFF} (valid UTF-8 for -c/-l) with 1-4 records; each case is "
-                "run as given and with -z toggled on the LF↔NUL-swapped input; non-trivial = selects a byte or fails")
+                "run as given and with -z toggled on the LF↔NUL-swapped input; plus the real binary on random accepted command lines (every mode "
+                "incl. -b and --no-join, -m, -M) with and without -z; non-trivial = selects a byte or fails")
     run_corpus(chk, spec=False)
     rng = chk.rng
     n = 30000 if chk.tier == "quick" else 300000
@@ -73,7 +74,48 @@ def _run_once(chk):
                               {"case": x, "case_b": y, "newline_mode": a, "zero_mode": b})
 
 
+def cli_part(chk):
+    """the real binary, end to end: parse_args is what picks the EOL, the line-mode delimiter and the readers"""
+    from cases import rand_cli
+    from common import build_tuc, run_cli
+    rng = chk.rng
+    tuc = build_tuc(release=False)
+    n = 3000 if chk.tier == "quick" else 12000
+    pairs = []
+    while len(pairs) < n:
+        argv, _inp, c = rand_cli(rng)
+        if c.get("M"):
+            argv = ["-f", rng.choice(["1", "2", "1,3", "2:3", "2:", "{1}x{2}", "1,2=F", "3=F"]), "-d", "-", "-M", rng.choice(["1", "64"])] + (["-j"] if rng.random() < 0.3 else [])
+            c = {"d": b"-", "bt": "f"}
+        argv = [a for a in argv if a != "-z"]
+        if "--json" in argv or any("\\n" in a for a in argv) or not argv:      # no argument at all prints the help text
+            continue
+        bt = c.get("bt", "f")
+        if bt in ("c", "l"):
+            alpha = ["a", "é", "😎", "\0", "\r", "b", " "]
+            recs = ["".join(rng.choice(alpha) for _ in range(rng.randint(0, 4))).encode() for _ in range(rng.randint(1, 5))]
+        elif bt == "b":
+            recs = [bytes(rng.choice([0, 10, 13, 97, 255, 45]) for _ in range(rng.randint(0, 5))) for _ in range(rng.randint(1, 3))]
+        else:
+            d = c.get("d") or b"\t"
+            alpha = [bytes([x]) for x in d] * 2 + [b"x", b"y", b"\0", b"\r", b"\xff"]
+            recs = [b"".join(rng.choice(alpha) for _ in range(rng.randint(0, 7))) for _ in range(rng.randint(1, 4))]
+        inp = b"\n".join(recs) + (b"\n" if rng.random() < 0.7 else b"")
+        pairs.append((argv, inp))
+    ra = run_cli(tuc, [(a, i) for a, i in pairs])
+    rb = run_cli(tuc, [(a + ["-z"], i.translate(TAU)) for a, i in pairs])
+    for (argv, inp), (sa, oa), (sb, ob) in zip(pairs, ra, rb):
+        chk.evaluations += 1
+        chk.count("cli:" + sa)
+        if sa != "0" or len(oa) >= 2:
+            chk.nontrivial_add(("cli", tuple(argv), inp))
+        if sa != sb or oa.translate(TAU) != ob:
+            chk.report_oracle("CLI: `tuc -z ARGS < swap(I)` is not the swapped output of `tuc ARGS < I`",
+                              {"argv": argv, "stdin_hex": inp.hex(), "newline_mode": [sa, oa.hex()], "zero_mode": [sb, ob.hex()]})
+
+
 def run(chk):
+    cli_part(chk)
     # thorough = several independent rounds of the same generators (the PRNG keeps advancing), so that memory stays bounded
     for _round in range(1 if chk.tier == "quick" else 6):
         _run_once(chk)
